@@ -5,7 +5,7 @@ RULE = ("case = a sequence of 2-8 consecutive injector lifetimes that all go thr
         "expression per arm (same source line, same static), lifetime i making c_i in {0..N+2} calls, some lifetimes ending in a caught "
         "panic, some sequences run on freshly spawned threads one after the other; the harness never touches the counter. All sequences of "
         "length <= 3 (quick) / <= 4 (thorough) over N <= 2 exhaustively plus random longer ones; later sequences of the process are later "
-        "installations of the same site as well. Oracle: the outcome of every call and of scope exit in lifetime i is the function of "
+        "installations of the same site as well. Variants: an empty injector / a preventer / an unrelated fake between two lifetimes; every second lifetime installing the line on a second function of the same shape; the line evaluated twice within one lifetime on two functions (exactly N calls each); a worker thread calling the target the moment it sees the entry patch of a later installation (budget 1: that call must be admitted). Oracle: the outcome of every call and of scope exit in lifetime i is the function of "
         "(N, c_i) given by the reference model (call j returns iff j < N; exit panics iff c_i != N). distinct = (arm, N, per-lifetime "
         "under/exact/over pattern, threads)")
 
